@@ -18,6 +18,25 @@ NO_RAISE_CALLS = {
 }
 
 
+# names of argument-less methods of the package all of whose definitions only return a test over fields (filled in per program by
+# pure_predicates()): a call of one cannot raise
+PURE_PREDICATES = set()
+
+
+def pure_predicates(prog):
+    """method names m such that every method m of the package is `return <comparisons / and / or / not over self's attributes>`"""
+    by_name = {}
+    for f in prog.functions.values():
+        if f.cls is None:
+            continue
+        body = [x for x in f.node.body if not (isinstance(x, ast.Expr) and isinstance(x.value, ast.Constant))]
+        pure = len(f.params) == 1 and len(body) == 1 and isinstance(body[0], ast.Return) and isinstance(body[0].value, (ast.Compare, ast.BoolOp, ast.UnaryOp)) \
+            and not any(isinstance(x, (ast.Call, ast.Subscript, ast.BinOp, ast.Yield, ast.Await)) for x in ast.walk(body[0].value)) \
+            and all(not isinstance(x, ast.Name) or x.id in (f.params[0], "None", "True", "False") for x in ast.walk(body[0].value))
+        by_name.setdefault(f.name, []).append(pure)
+    return {n for n, ps in by_name.items() if all(ps)}
+
+
 class Node:
     __slots__ = ("id", "kind", "ast", "succ", "pred", "label", "clone")
 
@@ -74,7 +93,8 @@ def default_may_raise(node):
         return False
     for n in walk_shallow(target):
         if isinstance(n, ast.Call):
-            if call_name(n) not in NO_RAISE_CALLS:
+            if call_name(n) not in NO_RAISE_CALLS and not (
+                    isinstance(n.func, ast.Attribute) and n.func.attr in PURE_PREDICATES and not n.args and not n.keywords):
                 return True
         elif isinstance(n, ast.Subscript) and isinstance(getattr(n, "ctx", None), ast.Load):
             return True
